@@ -41,6 +41,15 @@ const (
 	opRelease  = "release"  // release the S-th parked goroutine
 	opGoAway   = "goaway"   // peer GOAWAY (N&1: last-stream-id = highest seen id, else 2^31-1)
 	opClose    = "close"    // close the client transport
+	// opCancelWaiter cancels the context of Cnt NewStream calls that have not returned yet, starting at the S-th
+	// oldest (How=0) / S-th newest (How=1) such call. With NoWait on the preceding (or on this) op the cancellation
+	// and the neighbouring op happen in ONE scheduling step: the unit runs with GOMAXPROCS=1 and the plan's goroutine
+	// does not block between two ops unless it calls synctest.Wait, so no other goroutine runs in between.
+	opCancelWaiter = "cancel_waiter"
+	// opSleepDeadline advances virtual time to deadline+N ms (N in -1..1) of the S-th waiting call that has a
+	// deadline in the future (no-op if there is none): with N=0 and NoWait the next op executes at exactly the
+	// virtual instant at which that waiter's context expires.
+	opSleepDeadline = "sleep_deadline"
 )
 
 // Ways to finish a stream.
@@ -90,35 +99,44 @@ func genPlan(rt *rapid.T) Plan {
 	p.ZeroIWS = rapid.IntRange(0, 3).Draw(rt, "zero_iws") == 0
 	n := rapid.IntRange(4, vk.Pick(30, 200)).Draw(rt, "nops")
 	for i := 0; i < n; i++ {
-		var op Op
-		w := rapid.IntRange(0, 99).Draw(rt, "w")
-		switch {
-		case w < 38:
-			op = Op{K: opNew}
-			if rapid.IntRange(0, 3).Draw(rt, "has_dl") == 0 {
-				op.N = rapid.IntRange(1, 5000).Draw(rt, "dl")
-			}
-		case w < 60:
-			op = Op{K: opFinish, S: rapid.IntRange(0, 15).Draw(rt, "s"), Cnt: rapid.SampledFrom([]int{1, 1, 1, 2, 2, 3}).Draw(rt, "cnt"), How: rapid.IntRange(0, numHow-1).Draw(rt, "how")}
-		case w < 78:
-			op = Op{K: opSettings, N: genLimit(rt, "limit")}
-		case w < 84:
-			op = Op{K: opSleep, N: rapid.IntRange(1, 6000).Draw(rt, "ms")}
-		case w < 91:
-			op = Op{K: opPark, N: rapid.IntRange(1, 2).Draw(rt, "n")}
-		case w < 96:
-			op = Op{K: opRelease, S: rapid.IntRange(0, 7).Draw(rt, "s")}
-		case w < 98 && i > n/2:
-			op = Op{K: opGoAway, N: rapid.IntRange(0, 1).Draw(rt, "last")}
-		case w < 99 && i > n/2:
-			op = Op{K: opClose}
-		default:
-			op = Op{K: opNew}
-		}
-		op.NoWait = rapid.IntRange(0, 4).Draw(rt, "nowait") == 0
-		p.Ops = append(p.Ops, op)
+		p.Ops = append(p.Ops, genOp(rt, i > n/2))
 	}
 	return p
+}
+
+// genOp draws one op of the general mix; late allows goaway / close.
+func genOp(rt *rapid.T, late bool) Op {
+	var op Op
+	w := rapid.IntRange(0, 99).Draw(rt, "w")
+	switch {
+	case w < 33:
+		op = Op{K: opNew}
+		if rapid.IntRange(0, 3).Draw(rt, "has_dl") == 0 {
+			op.N = rapid.IntRange(1, 5000).Draw(rt, "dl")
+		}
+	case w < 36:
+		op = Op{K: opCancelWaiter, S: rapid.IntRange(0, 3).Draw(rt, "s"), Cnt: rapid.SampledFrom([]int{1, 1, 1, 2}).Draw(rt, "cnt"), How: rapid.IntRange(0, 1).Draw(rt, "newest")}
+	case w < 38:
+		op = Op{K: opSleepDeadline, S: rapid.IntRange(0, 3).Draw(rt, "s"), N: rapid.SampledFrom([]int{0, 0, 0, -1, 1}).Draw(rt, "delta")}
+	case w < 60:
+		op = Op{K: opFinish, S: rapid.IntRange(0, 15).Draw(rt, "s"), Cnt: rapid.SampledFrom([]int{1, 1, 1, 2, 2, 3}).Draw(rt, "cnt"), How: rapid.IntRange(0, numHow-1).Draw(rt, "how")}
+	case w < 78:
+		op = Op{K: opSettings, N: genLimit(rt, "limit")}
+	case w < 84:
+		op = Op{K: opSleep, N: rapid.IntRange(1, 6000).Draw(rt, "ms")}
+	case w < 91:
+		op = Op{K: opPark, N: rapid.IntRange(1, 2).Draw(rt, "n")}
+	case w < 96:
+		op = Op{K: opRelease, S: rapid.IntRange(0, 7).Draw(rt, "s")}
+	case w < 98 && late:
+		op = Op{K: opGoAway, N: rapid.IntRange(0, 1).Draw(rt, "last")}
+	case w < 99 && late:
+		op = Op{K: opClose}
+	default:
+		op = Op{K: opNew}
+	}
+	op.NoWait = rapid.IntRange(0, 4).Draw(rt, "nowait") == 0
+	return op
 }
 
 // call is one NewStream invocation.
@@ -133,6 +151,17 @@ type call struct {
 	s        *transport.ClientStream
 	err      error
 	finished bool // the plan finished this stream
+
+	cancelled   bool  // the plan cancelled the call's context while it had not returned (main goroutine only)
+	seenWaiting bool  // observed blocked at a quiescent point (main goroutine only)
+	ctxErr      error // ctx.Err() read by the call's goroutine right after NewStream returned (under mu)
+}
+
+// ctxErrAtReturn reports, for a returned call, the context error seen right after NewStream returned.
+func (c *call) ctxErrAtReturn() error {
+	c.mu.Lock()
+	defer c.mu.Unlock()
+	return c.ctxErr
 }
 
 func (c *call) state() (returned bool, s *transport.ClientStream, err error) {
@@ -223,17 +252,30 @@ func (e *exec) open() []*call {
 	return out
 }
 
+// waiting returns the number of calls that have not returned and how many of
+// them have a context that has ended (deadline passed or cancelled by the plan).
 func (e *exec) waiting() (n int, expired int) {
 	now := time.Now()
 	for _, c := range e.calls {
 		if ret, _, _ := c.state(); !ret {
 			n++
-			if !c.deadline.IsZero() && now.After(c.deadline) {
+			if (!c.deadline.IsZero() && now.After(c.deadline)) || c.cancelled {
 				expired++
 			}
 		}
 	}
 	return
+}
+
+// unreturned lists the calls that have not returned, oldest first.
+func (e *exec) unreturned() []*call {
+	var out []*call
+	for _, c := range e.calls {
+		if ret, _, _ := c.state(); !ret {
+			out = append(out, c)
+		}
+	}
+	return out
 }
 
 func (e *exec) wireID(c *call) uint32 {
@@ -283,8 +325,9 @@ func (e *exec) doOp(op Op) {
 		e.calls = append(e.calls, c)
 		go func() {
 			s, err := e.rig.CT.NewStream(ctx, &transport.CallHdr{Host: "vf", Method: c.path}, nil)
+			cerr := ctx.Err()
 			c.mu.Lock()
-			c.returned, c.s, c.err = true, s, err
+			c.returned, c.s, c.err, c.ctxErr = true, s, err, cerr
 			c.mu.Unlock()
 		}()
 	case opFinish:
@@ -350,6 +393,44 @@ func (e *exec) doOp(op Op) {
 			e.class("close_with_waiter")
 		}
 		e.rig.CT.Close(errors.New("closed by the plan"))
+	case opCancelWaiter:
+		var w []*call
+		for _, c := range e.unreturned() {
+			if !c.cancelled {
+				w = append(w, c)
+			}
+		}
+		for i := 0; i < max(1, op.Cnt) && len(w) > 0; i++ {
+			k := op.S % len(w)
+			if op.How == 1 {
+				k = len(w) - 1 - k
+			}
+			c := w[k]
+			w = append(w[:k], w[k+1:]...)
+			c.cancelled = true
+			if c.seenWaiting {
+				e.class("waiter_ctx_cancelled")
+			}
+			c.cancel() // closes ctx.Done(); does not block
+		}
+	case opSleepDeadline:
+		now := time.Now()
+		var w []*call
+		for _, c := range e.unreturned() {
+			if !c.deadline.IsZero() && c.deadline.After(now) {
+				w = append(w, c)
+			}
+		}
+		if len(w) == 0 {
+			return
+		}
+		c := w[op.S%len(w)]
+		if d := c.deadline.Sub(now) + time.Duration(op.N)*time.Millisecond; d > 0 {
+			if op.N == 0 && c.seenWaiting {
+				e.class("slept_to_exact_waiter_deadline")
+			}
+			time.Sleep(d)
+		}
 	}
 }
 
@@ -395,13 +476,16 @@ func (e *exec) finish(c *call, how int) {
 
 // check is the liveness oracle, evaluated at quiescence.
 func (e *exec) check(where string) {
+	for _, c := range e.unreturned() {
+		c.seenWaiting = true // blocked at a quiescent point: in the wait select or parked at the hook just before it
+	}
 	waiting, expired := e.waiting()
 	parked := e.numParked()
 	// A goroutine parked by the harness at the hook cannot notice its deadline;
 	// the harness does not know which calls are parked, so up to `parked`
 	// expired calls are excused.
 	if expired > parked {
-		e.badf("%s: %d NewStream call(s) still blocked after their deadline passed (%d goroutine(s) parked by the harness)", where, expired, parked)
+		e.badf("%s: %d NewStream call(s) still blocked after their deadline passed / their context was cancelled (%d goroutine(s) parked by the harness)", where, expired, parked)
 	}
 	if e.closed || e.drained {
 		if waiting-parked > 0 && e.closed {
@@ -477,10 +561,22 @@ func runPlan(t *testing.T, p Plan) (out outcome) {
 			}
 			if err == nil {
 				e.class("admitted")
+				// A call that had been blocked and whose context was already done when
+				// NewStream returned a stream: it left the wait through the quota-signal
+				// arm although its context had ended (allowed; the state in which a
+				// waiter must still pass the wake-up on).
+				if c.seenWaiting && c.ctxErrAtReturn() != nil {
+					e.class(clsTokenDoneCtx)
+				}
 				continue
 			}
 			k := classify(err)
 			switch k {
+			case "cancelled":
+				if !c.cancelled {
+					e.badf("NewStream %s failed with %v but its context was not cancelled", c.path, err)
+				}
+				e.class("failed_cancelled")
 			case "deadline":
 				if c.deadline.IsZero() {
 					e.badf("NewStream %s failed with a deadline error but had no deadline: %v", c.path, err)
@@ -552,12 +648,19 @@ func runPlan(t *testing.T, p Plan) (out outcome) {
 // the server and still counts there (RFC 7540 5.1.2).
 const sigHalfClosed = "c13.server_ended_stream_not_closed_by_client"
 
+// clsTokenDoneCtx: a blocked NewStream call took the quota wake-up although its context had already ended.
+const clsTokenDoneCtx = "token_taken_by_waiter_with_done_context"
+
 const rule = "plans of <=30/200 ops against a real http2Client and a scripted h2peer server: NewStream calls on their own goroutines (25% with a 1..5000 ms virtual deadline), " +
+	"cancelling the context of the k-th call that is still waiting (cancel_waiter), sleeping to the exact deadline of a waiting call (sleep_deadline), both fusable with the neighbouring op into one scheduling step (nowait, GOMAXPROCS=1), " +
 	"finishing 1-3 admitted streams in one of 6 ways (client cancel, server RST, half-close + trailers, trailers + RST(NO_ERROR), trailers only, trailers while the client's END_STREAM is flow-control blocked), " +
 	"server SETTINGS MAX_CONCURRENT_STREAMS in {0,1..6,8,100,2^20,2^31-1,2^32-1} raising and lowering, virtual sleeps, parking goroutines at the h2c.newStream.beforeWait hook (check-then-wait window) and releasing them later, GOAWAY, Close; " +
 	"initial limit absent/0/1..6/large. non-trivial = the limit was lowered below the open count while a NewStream call was waiting, or a waiter existed while a stream finished / the limit was raised"
 
-func run(t *testing.T, p Plan) vk.Result {
+func run(t *testing.T, p Plan) vk.Result { return runUnit(t, p, false) }
+
+// runUnit executes the plan; tokenRace selects the non-trivial rule of the unit "tokenrace".
+func runUnit(t *testing.T, p Plan, tokenRace bool) vk.Result {
 	out := runPlan(t, p)
 	if out.setupErr != nil {
 		return vk.Result{Discard: true}
@@ -565,7 +668,8 @@ func run(t *testing.T, p Plan) vk.Result {
 	var cl []string
 	for _, c := range []string{"limit_lowered_below_open", "limit_lowered_below_open_with_waiter", "limit_zero", "raise_with_waiters", "finish_with_waiter", "goaway_with_waiter", "close_with_waiter",
 		"waiter_blocked_at_limit", "parked_in_check_then_wait_window", "opened_stream_reaching_limit", "open_above_limit_after_ack", "admitted", "failed_deadline", "failed_drain", "failed_closed",
-		"peer_ends_stream_while_client_end_stream_is_flow_blocked"} {
+		"peer_ends_stream_while_client_end_stream_is_flow_blocked",
+		clsTokenDoneCtx, "waiter_ctx_cancelled", "slept_to_exact_waiter_deadline", "failed_cancelled"} {
 		if out.classes[c] {
 			cl = append(cl, c)
 		}
@@ -593,6 +697,9 @@ func run(t *testing.T, p Plan) vk.Result {
 		return r
 	}
 	nt := out.classes["limit_lowered_below_open_with_waiter"] || (out.classes["waiter_blocked_at_limit"] && (out.classes["finish_with_waiter"] || out.classes["raise_with_waiters"]))
+	if tokenRace {
+		nt = out.classes[clsTokenDoneCtx]
+	}
 	res := vk.OK(nt, cl...)
 	res.Steps = len(p.Ops)
 	return res
